@@ -293,7 +293,7 @@ func execC03(t *testing.T, c *Case) *Verdict {
 	e := &c03Exec{c: c, v: v}
 	defer func() {
 		if p := recover(); p != nil {
-			v.Infra = fmt.Sprintf("bubble panic: %v", p)
+			v.Infra = bubblePanic(p, &v.Stats)
 		}
 	}()
 	var sdig string
@@ -430,7 +430,7 @@ func execC03(t *testing.T, c *Case) *Verdict {
 			r.setRootOp(nil)
 		} else {
 			sc := newSched(c.Tape, c.Knobs.SwitchThr, 8000)
-			r.sc = sc
+			r.attach(sc)
 			r.taskOps = make([]*opCtx, len(c.Clients))
 			panics := make([]string, len(c.Clients))
 			for ci := range c.Clients {
@@ -455,7 +455,7 @@ func execC03(t *testing.T, c *Case) *Verdict {
 				v.Infra = err.Error()
 				return
 			}
-			r.sc = nil
+			r.detach(sc)
 			for ci, p := range panics {
 				if p != "" {
 					v.Infra = fmt.Sprintf("client %d harness panic: %s", ci, p)
